@@ -19,7 +19,7 @@ RULE = ("cases = nested plain values (depth<=4) over None, bool, int incl. huge,
 ASSUMPTIONS = ["NaN excluded from plain values (nan != nan)", "floats closer than rel 1e-6 to the original are not judged",
                "True/False vs 1/0 differences are not judged (Python's identification)"]
 REACH_FILES = ['d42/utils/_from_native.py']
-TIERS = {"quick": dict(shards=16, cases=6000), "thorough": dict(shards=16, cases=120000)}
+TIERS = {"quick": dict(shards=16, cases=6000), "thorough": dict(shards=16, cases=60000)}
 
 UUIDS = [_uuid.UUID("5a1f2e0c-9d3b-4c7a-8f21-0123456789ab"), _uuid.UUID("00000000-0000-4000-8000-000000000000")]
 
